@@ -67,7 +67,7 @@ def pred_invisible_op_in_wrapper(v, params):
     tree = gen.from_xml(v["witness"]["mathml"])
     for n, _ in tree.walk():
         if n.tag in ("mstyle", "mpadded") and n.kids:
-            vis = [k for k in n.kids if not (k.kids is None and (k.text or "").strip(" \u00a0") == "") and k.tag not in ("mspace",) and not (k.kids is not None and not k.kids)]
+            vis = [k for k in n.kids if not (k.kids is None and (k.text or "").strip() == "") and k.tag not in ("mspace",) and not (k.kids is not None and not k.kids)]
             if len(vis) == 1 and vis[0].tag == "mo" and (vis[0].text or "") in ("\u2061", "\u2062", "\u2063", "\u2064"):
                 return True
     return False
